@@ -30,23 +30,23 @@ ASSUMPTIONS = [
 # Reasoned table: obligations that need an invariant from another rule or an argument outside the simple provers.
 # key: (function regex, kind regex, callee/op regex or None, ordinal or None) -> reason
 REASONED = [
-    (r"^packet::PacketConn::<R>::next$", r"assert:Overflow\(Sub\)", None, None,
+    (r"^{F_READ}$", r"assert:Overflow\(Sub\)", None, None,
      "bytes.len() - remaining: remaining <= len(bytes) is the window invariant (C01.window-invariant: remaining is only ever set to rest.len() of a sub-slice of bytes, to len(bytes), or to 0)"),
-    (r"^packet::PacketConn::<R>::next$", r"^index$", r"Vec<T, A> as std::ops::Index<I>>::index", None,
+    (r"^{F_READ}$", r"^index$", r"Vec<T, A> as std::ops::Index<I>>::index", None,
      "bytes[start..]: start = len - remaining <= len by the same invariant (C01.window-invariant)"),
-    (r"^packet::PacketConn::<R>::next$", r"^vec-op$", r"drain", None, "drain(0..start): start <= len (C01.window-invariant)"),
-    (r"^packet::PacketConn::<R>::next$", r"assert:Overflow\(Mul\)", None, None, "end * 2: end = Vec length <= isize::MAX, so 2*end < 2^64"),
-    (r"^packet::PacketConn::<R>::next$", r"^index$", r"IndexMut<I>>::index_mut", None, "bytes[end..] right after resize(max(4096, 2*end)): new length >= end"),
-    (r"^packet::PacketConn::<R>::next$", r"assert:Overflow\(Add\)", None, None, "end + read: read <= buf.len() = len - end (Read contract), so the sum is <= len"),
-    (r"^packet::PacketConn::<W>::maybe_end_packet$", r"assert:Overflow\(Sub\)", None, None, "to_write.len() - 4: the buffer always holds the 4 header bytes (C04.header-equals-payload: initial vec![0;4], truncate(4))"),
-    (r"^packet::PacketConn::<W>::maybe_end_packet$", r"^index$", None, None, "to_write[0..3], to_write[3], to_write[..]: length >= 4 (C04.header-equals-payload)"),
-    (r"^packet::PacketConn::<W>::maybe_end_packet$", r"^byteorder-slice$", None, None, "write_u24 into a 3-byte slice with len < 2^24 (C04.split-threshold bounds the pending length)"),
+    (r"^{F_READ}$", r"^vec-op$", r"drain", None, "drain(0..start): start <= len (C01.window-invariant)"),
+    (r"^{F_READ}$", r"assert:Overflow\(Mul\)", None, None, "end * 2: end = Vec length <= isize::MAX, so 2*end < 2^64"),
+    (r"^{F_READ}$", r"^index$", r"IndexMut<I>>::index_mut", None, "bytes[end..] right after resize(max(4096, 2*end)): new length >= end"),
+    (r"^{F_READ}$", r"assert:Overflow\(Add\)", None, None, "end + read: read <= buf.len() = len - end (Read contract), so the sum is <= len"),
+    (r"^{F_TERM}$", r"assert:Overflow\(Sub\)", None, None, "to_write.len() - 4: the buffer always holds the 4 header bytes (C04.header-equals-payload: initial vec![0;4], truncate(4))"),
+    (r"^{F_TERM}$", r"^index$", None, None, "to_write[0..3], to_write[3], to_write[..]: length >= 4 (C04.header-equals-payload)"),
+    (r"^{F_TERM}$", r"^byteorder-slice$", None, None, "write_u24 into a 3-byte slice with len < 2^24 (C04.split-threshold bounds the pending length)"),
     (r"^packet::PacketConn::<W>::switch_to_tls$", r"assert:Overflow\(Sub\)|^index$", None, None, "bytes[len - remaining..]: remaining <= len (C01.window-invariant)"),
     (r"^<tls::SwitchableConn<T> as std::io::(Read|Write)>::(read|write|flush)$", r"^unwrap$", None, None,
      "self.0 is Some from the constructor; switch_to_tls takes it and either restores Some or returns an error that ends run_on (C18.ownership)"),
     (r"^tls::SwitchableConn::<T>::switch_to_tls$", r"^panic$", None, None, "unreachable!() for self.0 == None: see the unwrap reasoning (the value is Some whenever the connection is in use)"),
-    (r"^tls::create_stream$", r"^unwrap$", None, None, "ServerConnection::new fails only for an inconsistent ServerConfig supplied by the shim, not for client bytes"),
-    (r"^MysqlIntermediary::<B, RW>::run$", r"^index$", r"Index<I> for \[T\]>::index :: &\[u8\],std::ops::RangeFrom<usize>$", None,
+    (r"^tls::|^<tls::", r"^unwrap$", r" <- .*ServerConnection::new\(", None, "ServerConnection::new fails only for an inconsistent ServerConfig supplied by the shim, not for client bytes"),
+    (r"^{F_RUN}$", r"^index$", r"Index<I> for \[T\]>::index :: &\[u8\],std::ops::RangeFrom<usize>( <- .*)?$", None,
      "q[b\"SELECT @@\".len()..] / q[b\"USE \".len()..]: dominated by starts_with(prefix) of the same length (C02.prefix-agreement)"),
     (r"^<params::Params<'a> as std::iter::Iterator>::next$", r"^panic$", None, None,
      "unreachable!() for nullmap == None: the first block stores Some(..) whenever it was None (path-checked below by C20.nullmap-some)"),
@@ -187,7 +187,14 @@ def run(ctx):
                     continue
                 reason = None
                 for frx, krx, crx, _ord, why in REASONED:
-                    callee_s = callee + " :: " + ",".join(t.get("arg_tys") or []) if t["k"] == "call" else callee
+                    # functions are named by role where one exists (the reader, the packet terminator, the command loop), so that
+                    # merging / renaming them does not orphan the reasoning; call sites carry their argument types and origin
+                    frx = frx.replace("{F_READ}", re.escape(roles.f_read.path)).replace("{F_TERM}", re.escape(roles.f_term.path)).replace("{F_RUN}", re.escape(roles.f_run.path))
+                    callee_s = callee
+                    if t["k"] == "call":
+                        callee_s = callee + " :: " + ",".join(t.get("arg_tys") or [])
+                        if t["args"]:
+                            callee_s += " <- " + term_str(b.arg_origin(bb, 0))[:160]
                     if re.search(frx, path) and re.search(krx, kind) and (crx is None or re.search(crx, callee_s)):
                         reason = why
                         break
